@@ -129,3 +129,18 @@ def crc_sequence(msg):
 def cprnl_sequence(xs):
     from pyModeS import common
     return [int(common.cprNL(x)) for x in xs]
+
+
+def call_sequence(calls):
+    """[(dotted function path, [args])...] executed in order in this interpreter; returns the outcome of each"""
+    from symx.replay_server import resolve
+    out = []
+    for path, args in calls:
+        try:
+            r = resolve(path)(*args)
+            if hasattr(r, "item"):
+                r = r.item()
+            out.append(["ret", r])
+        except BaseException as e:      # noqa
+            out.append(["exc", type(e).__name__])
+    return out
